@@ -11,6 +11,8 @@ mod obs_claims;
 mod obs_cross;
 mod obs_keys;
 mod obs_pae;
+mod obs_safety;
+mod obs_shared;
 mod payload;
 mod prng;
 mod rec;
@@ -41,6 +43,19 @@ fn main() {
             println!("lines={}", rec.finish());
         }
         "gen-fixtures" => keys::gen_fixtures(),
+        "obs-shared" => {
+            let mut rec = Recorder::create(&out);
+            std::panic::set_hook(Box::new(|_| {}));
+            let v = obs_shared::run(&mut rec, &arg(&args, "--cases").expect("--cases"), thorough, seed);
+            println!("{}", serde_json::json!({"lines": rec.finish(), "backends": v}));
+        }
+        "obs-safety" => {
+            let mut rec = Recorder::create(&out);
+            std::panic::set_hook(Box::new(|_| {}));
+            let backends: Vec<String> = arg(&args, "--backends").map(|b| b.split(',').map(|x| x.to_string()).collect()).unwrap_or_else(|| backends::ALL.iter().map(|x| x.to_string()).collect());
+            let n = obs_safety::run(&mut rec, &arg(&args, "--progress").unwrap_or_else(|| "/dev/null".into()), thorough, seed, &backends);
+            println!("{}", serde_json::json!({"lines": rec.finish(), "inputs": n}));
+        }
         "obs-cross" => {
             let mut rec = Recorder::create(&out);
             std::panic::set_hook(Box::new(|_| {}));
